@@ -454,30 +454,53 @@ func c22BashArtifact(cs c22Case) bool {
 	return false
 }
 
-// c22BashAtAfterDelim: an unquoted $@ / $* directly after an unquoted expansion whose value ends in
-// IFS white space followed by one non-white-space IFS character (`IFS=': '; x=' :'; set -- b c; $x$@`).
-// bash drops the empty field that this delimiter makes at the start of a field (it gives <b><c>) although
-// it keeps it for `$x$1` (<><b>) and for x=':' (<><b><c>); dash and POSIX give <><b><c> in all three, as
-// the implementation does.  A bash inconsistency, kept out of the oracle comparison.
+// c22BashAtAfterDelim: words that contain $@ or $* (quoted or not) together with an unquoted expansion
+// whose value has IFS white space directly followed by a non-white-space IFS character.  bash then drops
+// the empty field that such a delimiter makes when no field has begun (`IFS=': '; x=' :'; set -- b c;
+// $x$@` gives <b><c>; `set --; "$@"$x` gives nothing) although it keeps it without the $@ ($x$1 -> <><b>,
+// $x -> <>) and for x=':' (<><b><c>); dash and POSIX give the empty field in all cases, as the
+// implementation does.  A bash inconsistency, kept out of the oracle comparison (the Lean specification
+// stream still covers these words).
 func c22BashAtAfterDelim(cs c22Case) bool {
 	ifsv := cs.ifsv()
 	isW := func(r rune) bool { return (r == ' ' || r == '\t' || r == '\n') && strings.ContainsRune(ifsv, r) }
 	isD := func(r rune) bool { return strings.ContainsRune(ifsv, r) && !isW(r) }
-	for i, p := range cs.parts {
-		if (p.kind != 'A' && p.kind != 'T') || i == 0 {
-			continue
+	hasWD := func(v string) bool {
+		prevW := false
+		for _, r := range v {
+			if prevW && isD(r) {
+				return true
+			}
+			prevW = isW(r)
 		}
-		q := cs.parts[i-1]
-		if q.kind != 'E' && q.kind != 'C' {
-			continue
+		return false
+	}
+	list, unq := false, false
+	for _, p := range cs.parts {
+		switch p.kind {
+		case 'A', 'T':
+			list, unq = true, true
+		case 'D':
+			for _, d := range p.ds {
+				if d.kind == 'a' || d.kind == 't' {
+					list = true
+				}
+			}
 		}
-		rs := []rune(c22Eff(q.kind, q.val))
-		n := len(rs)
-		for n > 0 && isW(rs[n-1]) {
-			n--
-		}
-		if n >= 2 && isD(rs[n-1]) && isW(rs[n-2]) {
+	}
+	if !list {
+		return false
+	}
+	for _, p := range cs.parts {
+		if (p.kind == 'E' || p.kind == 'C') && hasWD(c22Eff(p.kind, p.val)) {
 			return true
+		}
+	}
+	if unq {
+		for _, v := range cs.params {
+			if hasWD(v) {
+				return true
+			}
 		}
 	}
 	return false
